@@ -3,7 +3,7 @@
 # (scratch copy lives under /tmp and is removed afterwards; /repo is not touched)
 set -u
 patch="$1"; tier="$2"; shift 2
-d=$(mktemp -d /tmp/scratch.XXXXXX)
+d=$(mktemp -d /tmp/scratch.XXXXXX); trap "rm -rf $d" EXIT PIPE INT TERM
 cp -r /repo/ombott /repo/tests /repo/setup.py "$d"/ 2>/dev/null
 if [[ "$patch" == -R:* ]]; then
   (cd "$d" && git -C /repo show "${patch#-R:}" | patch -R -p1 -s) || { echo "reverse-apply failed"; rm -rf "$d"; exit 3; }
